@@ -168,8 +168,29 @@ def tables(ctx, R="R-C11-dispatch-tables"):
         entries = []
         for g_, v_, _n in evg_.returns:
             if any(isinstance(x, S.E) and x.op == "cond" for x in S.walk(v_)):
-                for tests, leaf in cc.strip_cond(v_):
-                    entries.append(([t for l, t in tests if l == "T"], leaf))
+                # a chain  a if t1 else (b if t2 else ...)  read in order: the first test that holds decides
+                cur_ = v_
+                while isinstance(cur_, S.E) and cur_.op == "cond":
+                    t_, a_, cur_ = cur_.args
+                    if any(isinstance(x, S.E) and x.op == "cond" for x in S.walk(a_)):
+                        raise AnalysisError("nested decision")
+                    entries.append(([t_], a_))
+                if not (cur_.op == "unknown" or (cur_.is_const and cur_.value is None)):
+                    # the last alternative: its own test is the positive atom of the return's path condition no entry has used
+                    def atoms_(e_):
+                        if e_.op in ("and", "or"):
+                            return [y for a__ in e_.args for y in atoms_(a__)]
+                        if e_.op == "not" or (e_.op == "cmp" and e_.args[0] in ("not in", "!=", "is not")):
+                            return []
+                        return [e_]
+                    used_ = [t__ for ts_, _ in entries for t__ in ts_]
+                    rest_ = []
+                    for a__ in atoms_(g_):
+                        if a__ not in used_ and a__ not in rest_:
+                            rest_.append(a__)
+                    if len(rest_) > 1:
+                        raise AnalysisError("ambiguous last alternative")
+                    entries.append((rest_ or [S.TRUE], cur_))
             else:
                 conj = list(g_.args) if g_.op == "and" else [g_]
                 entries.append(([c for c in conj if not (c.op == "not" or (c.op == "cmp" and c.args[0] in ("not in", "!=", "is not")))], v_))
@@ -181,6 +202,7 @@ def tables(ctx, R="R-C11-dispatch-tables"):
                 return "".join(a.value for a in e.args)
             return None
         sp, sr, okx = {}, set(), bool(entries)
+        ext_forms = []
         for pos, leaf in entries:
             if len(pos) != 1:
                 okx = False
@@ -194,11 +216,14 @@ def tables(ctx, R="R-C11-dispatch-tables"):
                 sr.add(lv)
             elif a.op == "cmp" and a.args[0] == "in" and "SOUNDFILE_SUPPORTED_FILE_TYPES" in S.show(a.args[2]):
                 sr.add("<soundfile type>")
+                ext_forms.append((a.args[1], leaf))
             else:
                 okx = False
                 break
         if okx:
             pairs, rets, semantic_ok = sp, sr, True
+            for tested, returned in ext_forms:
+                _extension_form(ctx, R, g, tested, returned)
     except Exception:
         semantic_ok = False
     chain = [n for n in g.node.body if isinstance(n, ast.If)]
@@ -261,6 +286,38 @@ def tables(ctx, R="R-C11-dispatch-tables"):
                 ok = [astq.text(a) for a in c.args] == ["rfilename", "dtype", "key"] and (t.name == "sphere_read_signal" or any(k.arg is None and astq.text(k.value) == "kwargs" for k in c.keywords))
                 ctx.check(ok, R, f, c, "%s receives (rfilename, dtype, key, **kwargs)" % t.name, "%s is called as %s" % (t.name, astq.text(c)))
     ctx.floor(R + "/readers-called", n_b, 10)
+
+
+# How the text after the last "." of a name is taken.  The soundfile types are recognised by that text, for every name -
+# including a name that is nothing but "." + type (the key WebDataset hands to a decoder for a one-extension sample, or a
+# hidden file).  The idioms below are equal on every string; the path-aware ones (os.path.splitext, pathlib suffix) treat a
+# base name that starts with its only dot as having no extension, and pathlib also drops a trailing dot or separator.
+_EXT_SAME = ("getitem(.rsplit(%s, '.', kw:maxsplit(1)), -1)", "getitem(.rsplit(%s, '.', 1), -1)", "getitem(.split(%s, '.'), -1)",
+             "getitem(.rpartition(%s, '.'), 2)", "getitem(.rpartition(%s, '.'), -1)")
+_EXT_PATHLIKE = (("getitem(.suffix(pathlib.PurePath(%s)), slice(1, None, None))", "pathlib's suffix"),
+                 ("getitem(.suffix(pathlib.Path(%s)), slice(1, None, None))", "pathlib's suffix"),
+                 ("getitem(.suffix(pathlib.PurePosixPath(%s)), slice(1, None, None))", "pathlib's suffix"),
+                 ("getitem(getitem(os.path.splitext(%s), 1), slice(1, None, None))", "os.path.splitext"),
+                 ("getitem(getitem(os.path.splitext(%s), -1), slice(1, None, None))", "os.path.splitext"),
+                 ("getitem(getitem(posixpath.splitext(%s), 1), slice(1, None, None))", "os.path.splitext"))
+
+
+def _extension_form(ctx, R, g, tested, returned):
+    arg = g.params[0]
+    what = "the soundfile type of a name is the text after its last '.', for every name"
+    for e in (tested, returned):
+        txt = S.show(e)
+        if any(txt == f % arg for f in _EXT_SAME):
+            continue
+        hit = [why for f, why in _EXT_PATHLIKE if txt == f % arg]
+        if hit:
+            ctx.bad(R, g, g.node, "the extension is taken with %s, which gives '' for a name that is only '.' + type ('.flac', 'dir/.ogg': the key "
+                    "WebDataset passes for a one-extension sample): such a name is no longer inferred as a soundfile type although the text "
+                    "after its last '.' is one" % hit[0], what, robust=True)
+            return
+        ctx.error(R, "cannot decide how the suffix inference takes the extension of a name: %s" % txt[:120])
+        return
+    ctx.ok(R, g.loc(), what, "extension idiom: %s" % S.show(tested)[:80])
 
 
 def stream_guards(ctx, R="R-C11-stream-guards"):
